@@ -362,3 +362,67 @@ class AffineInterp:
 
 def mentions_any(t, lv):
     return ex.mentions(t, lv)
+
+
+# ---- P8 linear guard normal form ---------------------------------------------------------------------------------------------
+def linear_form(t, leaf=None):
+    """(coeffs: {term: int}, const) of an integer expression built from +, -, literals, casts and opaque leaves; None if
+    not linear (multiplication by a literal is accepted)"""
+    k = t[0]
+    if k == 'int':
+        return {}, t[1]
+    if k == 'float' and float(t[1]).is_integer():
+        return {}, int(t[1])
+    if k in ('cast', 'conv'):
+        return linear_form(t[2], leaf)
+    if k == 'bin' and t[1] in ('+', '-'):
+        a = linear_form(t[2], leaf)
+        b = linear_form(t[3], leaf)
+        if a is None or b is None:
+            return None
+        sgn = 1 if t[1] == '+' else -1
+        c = dict(a[0])
+        for x, v in b[0].items():
+            c[x] = c.get(x, 0) + sgn * v
+        return {x: v for x, v in c.items() if v != 0}, a[1] + sgn * b[1]
+    if k == 'bin' and t[1] == '*':
+        a = linear_form(t[2], leaf)
+        b = linear_form(t[3], leaf)
+        if a is None or b is None:
+            return None
+        if not a[0]:
+            return {x: v * a[1] for x, v in b[0].items()}, b[1] * a[1]
+        if not b[0]:
+            return {x: v * b[1] for x, v in a[0].items()}, a[1] * b[1]
+        return None
+    if k == 'un' and t[1] == '-':
+        a = linear_form(t[2], leaf)
+        if a is None:
+            return None
+        return {x: -v for x, v in a[0].items()}, -a[1]
+    if k in ('field', 'var', 'call'):
+        return {t: 1}, 0
+    return None
+
+
+def int_lt0(atom_, pol):
+    """normalise an integer comparison atom with polarity to `L < 0` (returns (coeffs frozenset, const)) using
+    a <= b  <=>  a - b - 1 < 0 and !(L < 0) <=> -L - 1 < 0; None if not a linear comparison"""
+    if atom_[0] != 'bin' or atom_[1] not in ('<', '<=', '=='):
+        return None
+    if atom_[1] == '==':
+        return None
+    a = linear_form(atom_[2])
+    b = linear_form(atom_[3])
+    if a is None or b is None:
+        return None
+    c = dict(a[0])
+    for x, v in b[0].items():
+        c[x] = c.get(x, 0) - v
+    k = a[1] - b[1]
+    if atom_[1] == '<=':
+        k -= 1
+    if not pol:
+        c = {x: -v for x, v in c.items()}
+        k = -k - 1
+    return frozenset((x, v) for x, v in c.items() if v != 0), k
